@@ -212,6 +212,7 @@ type profile struct {
 	maxSteps   int
 	race       bool
 	lowerMax   int // per mille of runs in which UpdateMaxCost may also lower MaxCost
+	bucketWide int // per mille of runs with expiry buckets of 7..30 s (many ttls share a bucket)
 }
 
 // Capacity modes.
@@ -274,6 +275,13 @@ func init() {
 		mix:     mix{get: 30, set: 10, setTTL: 35, del: 8, getTTL: 8, iter: 3, wait: 4, yield: 6, clear: 1},
 		capMode: []int{CapAll, CapAll, CapFew}, bufSmall: 400, collide: 0, strKeys: 100,
 		pClockLo: 60, pClockHi: 300, ttlNeg: 30, shouldUpd: 120, metricsPM: 300, epilogue: "ttl", quiescePM: 20, starveAppl: 300})
+	// C14 (and C02/C06): several callers re-writing the same one or two keys with
+	// and without TTL, wide expiry buckets: the caller-side update path racing
+	// itself and the sweep
+	add(&profile{name: "rewrite", clientsLo: 2, clientsHi: 3, opsLo: 4, opsHi: 14, keysLo: 1, keysHi: 2,
+		mix:     mix{get: 10, set: 25, setTTL: 40, del: 3, getTTL: 3, wait: 5, yield: 8},
+		capMode: []int{CapAll}, bufSmall: 300, collide: 0, strKeys: 50,
+		pClockLo: 40, pClockHi: 250, shouldUpd: 50, metricsPM: 200, epilogue: "ttl", quiescePM: 20, starveAppl: 200, bucketWide: 600})
 	// C15: close / clear
 	add(&profile{name: "close", clientsLo: 1, clientsHi: 4, opsLo: 3, opsHi: 20, keysLo: 1, keysHi: 6,
 		mix:     mix{get: 20, set: 30, setTTL: 10, del: 10, wait: 10, clear: 8, yield: 3, iter: 2},
@@ -393,7 +401,9 @@ func GenPlan(profName string, seed uint64) *Plan {
 	}
 	c.TickerSec = int64(g.pick([]int{0, 1, 1, 2, 3, 5, 10, 20}))
 	c.MaxStripes = g.rng(1, 3)
-	if g.p(400) {
+	if g.p(pr.bucketWide) {
+		c.BucketSecs = int64(g.pick([]int{7, 10, 30}))
+	} else if g.p(400) {
 		c.BucketSecs = int64(g.pick([]int{1, 2, 3, 7, 10}))
 	}
 	c.ClockOffset = int64(g.n(1<<30)) * int64(g.rng(1, 40))
